@@ -25,6 +25,11 @@ pub enum Op {
     OwnedJson,
     /// `shrink_buffer_to_fit()` on set j; observes `len()` and `is_empty()`
     Shrink(usize),
+    /// open a SECOND reader over this input (same capacity, policy description and chunking, no faults) and make it
+    /// the active one; the three record sets and the position slots are shared between the two readers
+    Second(Vec<u8>),
+    /// make the other reader the active one (no-op before `Second`)
+    Toggle,
 }
 
 impl Op {
@@ -33,6 +38,8 @@ impl Op {
         let n = |x: &str| x.parse::<usize>().ok();
         Some(match c {
             "n" if rest.is_empty() => Op::Next,
+            "w" if rest.is_empty() => Op::Toggle,
+            "T" => Op::Second(if rest == "-" { vec![] } else { crate::util::unhex(rest)? }),
             "o" if rest.is_empty() => Op::Owned,
             "p" if rest.is_empty() => Op::Pos,
             "s" => Op::Set(n(rest)?),
@@ -69,6 +76,8 @@ impl Op {
             Op::Json(j) => format!("j{}", j),
             Op::Shrink(j) => format!("h{}", j),
             Op::OwnedJson => "y".into(),
+            Op::Second(inp) => format!("T{}", if inp.is_empty() { "-".to_string() } else { crate::util::hex(inp) }),
+            Op::Toggle => "w".into(),
         }
     }
 }
@@ -326,6 +335,9 @@ pub fn run_fasta(c: &Case) -> String {
     let log: Log = Rc::new(RefCell::new(vec![]));
     let src = ScriptedReader::new(c.input.clone(), c.script.clone(), c.chunk, c.seek_fails.clone());
     let mut rdr = fasta::Reader::with_capacity(src, c.cap).set_policy(DynPolicy::new(c.pol.clone(), log.clone()));
+    // the inactive one of two readers that share the record sets (ops `T<input>` / `w`)
+    let mut other = None;
+    let mut other_slots = vec![None; 4];
     let mut sets = vec![fasta::RecordSet::default(), fasta::RecordSet::default(), fasta::RecordSet::default()];
     let mut slots: Vec<Option<fasta::Position>> = vec![None; 4];
     let mut out: Vec<String> = vec![];
@@ -415,6 +427,21 @@ pub fn run_fasta(c: &Case) -> String {
                 rdr = rdr.set_policy(DynPolicy::new(p.clone(), log.clone()));
                 // `policy()` hands out the policy that was installed
                 Caught::Ok(if rdr.policy().desc() == p { "Y".to_string() } else { "Y!policy".to_string() })
+            }
+            Op::Second(inp) => {
+                let src2 = ScriptedReader::new(inp.clone(), vec![], c.chunk, vec![]);
+                let r2 = fasta::Reader::with_capacity(src2, c.cap).set_policy(DynPolicy::new(c.pol.clone(), log.clone()));
+                other = Some(std::mem::replace(&mut rdr, r2));
+                // captured positions belong to the reader they were taken from; the record sets are shared
+                other_slots = std::mem::replace(&mut slots, vec![None; 4]);
+                Caught::Ok("W".to_string())
+            }
+            Op::Toggle => {
+                if let Some(o) = other.as_mut() {
+                    std::mem::swap(&mut rdr, o);
+                    std::mem::swap(&mut slots, &mut other_slots);
+                }
+                Caught::Ok("W".to_string())
             }
             Op::Json(j) => {
                 let set = &sets[*j];
@@ -551,6 +578,9 @@ pub fn run_fastq(c: &Case) -> String {
     let log: Log = Rc::new(RefCell::new(vec![]));
     let src = ScriptedReader::new(c.input.clone(), c.script.clone(), c.chunk, c.seek_fails.clone());
     let mut rdr = fastq::Reader::with_capacity(src, c.cap).set_policy(DynPolicy::new(c.pol.clone(), log.clone()));
+    // the inactive one of two readers that share the record sets (ops `T<input>` / `w`)
+    let mut other = None;
+    let mut other_slots = vec![None; 4];
     let mut sets = vec![fastq::RecordSet::default(), fastq::RecordSet::default(), fastq::RecordSet::default()];
     let mut slots: Vec<Option<fastq::Position>> = vec![None; 4];
     let mut out: Vec<String> = vec![];
@@ -639,6 +669,21 @@ pub fn run_fastq(c: &Case) -> String {
                 rdr = rdr.set_policy(DynPolicy::new(p.clone(), log.clone()));
                 // `policy()` hands out the policy that was installed
                 Caught::Ok(if rdr.policy().desc() == p { "Y".to_string() } else { "Y!policy".to_string() })
+            }
+            Op::Second(inp) => {
+                let src2 = ScriptedReader::new(inp.clone(), vec![], c.chunk, vec![]);
+                let r2 = fastq::Reader::with_capacity(src2, c.cap).set_policy(DynPolicy::new(c.pol.clone(), log.clone()));
+                other = Some(std::mem::replace(&mut rdr, r2));
+                // captured positions belong to the reader they were taken from; the record sets are shared
+                other_slots = std::mem::replace(&mut slots, vec![None; 4]);
+                Caught::Ok("W".to_string())
+            }
+            Op::Toggle => {
+                if let Some(o) = other.as_mut() {
+                    std::mem::swap(&mut rdr, o);
+                    std::mem::swap(&mut slots, &mut other_slots);
+                }
+                Caught::Ok("W".to_string())
             }
             Op::Json(j) => {
                 let set = &sets[*j];
